@@ -11,6 +11,7 @@ import PrologVerif.Proofs.LexerRing
 import PrologVerif.Proofs.ReadBack
 import PrologVerif.Proofs.CanonRoundtrip
 import PrologVerif.Proofs.OpRoundtrip
+import PrologVerif.Proofs.OpRoundtripLexCex
 namespace PrologVerif.C06Example
 open PrologVerif PrologVerif.Lexer PrologVerif.Write
 
@@ -299,20 +300,71 @@ example :
   operators with brackets by priority and by the operator on the right, operators as atoms and arguments,
   negative numbers, `- (1)`, `,` `|` `[]` `{}`, lists, curly terms, functional notation). -/
 
-/-- the full statement kept visible: false as it stands (see the witnesses below) -/
+/-- The full statement kept visible.  As it stands it is FALSE; `C06_op_roundtrip` below is the same
+    conclusion under hypotheses, and this is exactly what separates the two:
+    * on the term: `wfTerm` and `numsOK` (the model's `Term` has stream handles, compounds without arguments
+      and unbounded integers, which the engine's terms do not have; floats must be among those the
+      `FormatFloat` parameter is known for) and `noVAR` (writeq prints `'$VAR'(N)` as a variable name, by
+      design: `C06_op_roundtrip_numbervars_witness`);
+    * on the table: `tableOK`, every conjunct of which is needed (`C06_op_roundtrip_priority_witness`,
+      `…_infix_postfix_witness`, `…_comma_witness`, `…_bar_witness`, `…_brackets_witness`) and which holds of
+      every table op/3 can produce (`C06_tableOK_of_valid`, `C18_inv`);
+    * on the writer's parameters: `EnvOK` (variable names are distinct `_`-tokens, `FormatFloat` round-trips),
+      `SignOK` (sign of the float text = sign bit) and `CapOK` (`C06_op_roundtrip_capital_witness`; true of
+      the real character tables, `C06_capOK_driver`). -/
 def C06_op_roundtrip_statement : Prop :=
   ∀ (e : Env) (ops : Ops.Table) (dq : Read.DoubleQuotes) (t : Term),
     (∀ c, e.cfg.conv c = c) →
     Read.readTerm e.cfg ops dq (writeq e ops t ++ [' ', '.']) = .ok t.canon
 
-/-- P2, reader half: if the text `writeq` emits for `T` lexes to the tokens `qt` (a decidable check,
-    `Write.lexOK`), then `read_term` returns `T` with its variables renamed by first occurrence — for every
-    well-formed term, every table with `tableOK`, every double_quotes flag. -/
+/-- **P2.**  `writeq(T)` followed by ` .` is read back by `read_term` as `T` with its variables renamed by
+    first occurrence — for EVERY well-formed finite term `T` without `'$VAR'(N)` (atoms of arbitrary text,
+    operators as atoms / operands / functors, negative numbers, `- (1)`, `1 - -1`, `- - a`, `f(:-)`, `[a|b]`,
+    `{a,b}`, nested prefix / infix / postfix operators of any priorities and associativities, functional
+    notation of any arity), EVERY operator table with `tableOK` (in particular every table reachable through
+    op/3, `C06_tableOK_of_valid`) and every double_quotes flag.  Hypotheses:
+    * `EnvOK e G P`, `numsOK P T`, `wfTerm T` as for P1 (`C06_canonical_roundtrip`);
+    * `SignOK G P`: `FormatFloat` prints `-` exactly for floats with the sign bit set (the writer decides
+      brackets and spaces by `math.Signbit`; follows from `EnvOK.fltLaw` and `parseBits < 2^63`, not proved);
+    * `CapOK e.cfg`: the character-class oracle counts no graphic character as a capital letter (true of
+      Go's tables: `C06_capOK_driver`; needed: `C06_op_roundtrip_capital_witness`);
+    * `tableOK ops` (needed: the `…_witness` theorems below, one per conjunct);
+    * `noVAR T` (needed: `C06_op_roundtrip_numbervars_witness`). -/
+theorem C06_op_roundtrip (e : Env) (G : UInt64 → GText) (P : UInt64 → Bool) (he : EnvOK e G P) (hs : SignOK G P)
+    (hcap : CapOK e.cfg) (ops : Ops.Table) (hops : tableOK ops = true) (dq : Read.DoubleQuotes) (t : Term)
+    (hw : wfTerm t = true) (hn : numsOK P t = true) (hv : noVAR t = true) :
+    Read.readTerm e.cfg ops dq (writeq e ops t ++ [' ', '.']) = .ok t.canon :=
+  readTerm_writeq e G P he hs hcap ops hops dq t hw hn hv
+
+/-- … in particular under every operator table that satisfies the invariant `Ops.Valid` of C18, i.e. every
+    table reachable from the default table through op/3 (`C18_inv`) -/
+theorem C06_op_roundtrip_valid (e : Env) (G : UInt64 → GText) (P : UInt64 → Bool) (he : EnvOK e G P) (hs : SignOK G P)
+    (hcap : CapOK e.cfg) (ops : Ops.Table) (hvalid : Ops.Valid ops) (dq : Read.DoubleQuotes) (t : Term)
+    (hw : wfTerm t = true) (hn : numsOK P t = true) (hv : noVAR t = true) :
+    Read.readTerm e.cfg ops dq (writeq e ops t ++ [' ', '.']) = .ok t.canon :=
+  readTerm_writeq e G P he hs hcap ops (tableOK_of_valid hvalid) dq t hw hn hv
+
+/-- P2, writer/lexer half: the text lexes to exactly the token sequence `qt` — the spacing rules of the
+    writer never glue two tokens together nor split one (`Write.lexSeq_qt_cont`, by induction on the term) -/
+theorem C06_op_tokens (e : Env) (G : UInt64 → GText) (P : UInt64 → Bool) (he : EnvOK e G P) (hs : SignOK G P)
+    (hcap : CapOK e.cfg) (ops : Ops.Table) (hops : tableOK ops = true) (t : Term)
+    (hw : wfTerm t = true) (hn : numsOK P t = true) (hv : noVAR t = true) :
+    (tokens e.cfg ((writeq e ops t ++ [' ', '.']).length + 1) (Lexer.ofList (writeq e ops t ++ [' ', '.']))).1 =
+      qt e G t (qopts ops) ++ [⟨.end_, ['.']⟩] := by
+  have hseq := lexSeq_writeq e G P he hs hcap ops hops t hw hn hv
+  exact tokens_all e.cfg hseq _ (by have := hseq.length_le; omega)
+
+/-- P2, reader half on its own: if the text lexes to the tokens `qt` (a decidable check, `Write.lexOK`), then
+    `read_term` returns `T` — needs neither `CapOK` nor `noVAR`. -/
 theorem C06_op_roundtrip_of_tokens (e : Env) (G : UInt64 → GText) (P : UInt64 → Bool) (he : EnvOK e G P)
     (hs : SignOK G P) (ops : Ops.Table) (hops : tableOK ops = true) (dq : Read.DoubleQuotes) (t : Term)
     (hw : wfTerm t = true) (hn : numsOK P t = true) (hlex : lexOK e G ops t = true) :
     Read.readTerm e.cfg ops dq (writeq e ops t ++ [' ', '.']) = .ok t.canon :=
   readTerm_writeq_of_lexOK e G P he hs ops hops dq t hw hn hlex
+
+/-- the character-class oracle the driver runs with (tables regenerated from the Go toolchain's package
+    unicode) counts no graphic character as a capital letter; nor does the ASCII oracle -/
+theorem C06_capOK_driver : CapOK Driver.C06.cfg ∧ CapOK Cfg.ascii := ⟨capOK_driver, capOK_ascii⟩
 
 /-- every table reachable from the default table through op/3 (`Ops.Valid`, C18_inv) satisfies `tableOK` -/
 theorem C06_tableOK_of_valid (ops : Ops.Table) (h : Ops.Valid ops) : tableOK ops = true := tableOK_of_valid h
@@ -341,6 +393,13 @@ example : tableOK Ops.defaultTable = true ∧ wfTerm exT = true ∧ numsOK exP e
     lexOK exEnv exG Ops.defaultTable exT = true ∧
     writeq exEnv Ops.defaultTable exT = "- (1)+a*(b-c):- \\+f(-,_aaaaaaaa)".toList := by
   decide +kernel
+
+open OpExample PrologVerif.C06Example in
+-- … so the theorem applies to it (every hypothesis discharged), for every double_quotes flag
+example (dq : Read.DoubleQuotes) :
+    Read.readTerm exEnv.cfg Ops.defaultTable dq (writeq exEnv Ops.defaultTable exT ++ [' ', '.']) = .ok exT.canon :=
+  C06_op_roundtrip exEnv exG exP exEnv_ok exSign capOK_ascii Ops.defaultTable (by decide +kernel) dq exT
+    (by decide +kernel) (by decide +kernel) (by decide +kernel)
 
 /-! #### the hypotheses are needed: witnesses on the model
 
@@ -384,6 +443,15 @@ theorem C06_op_roundtrip_brackets_witness :
 /-- `tableOK`, priorities ≤ 1200: with (1300,fy) `p(a)` is written `(p a)`, which the reader rejects -/
 theorem C06_op_roundtrip_priority_witness :
     rtq [⟨"p", 1300, .fy⟩] (.app "p" (.cons (.atom "a") .nil)) = none := by
+  decide +kernel
+
+/-- `CapOK`: if the oracle counted the graphic character `∀` as a capital letter, `∀(a,b)` (with `∀` an infix
+    operator) would be written `a∀b`, which is one letter-digit token (the writer's `letterDigit` looks for
+    small letters only, the lexer continues a name over every alphanumeric); `Write.cex_capOK` has all the
+    other hypotheses -/
+theorem C06_op_roundtrip_capital_witness :
+    (Read.readTerm cexEnv.cfg cexOps .chars (writeq cexEnv cexOps cexTerm ++ [' ', '.'])).toOption =
+      some (.atom "a∀b") := by
   decide +kernel
 
 /-- D26 on the tree before repo commit 88ee1dd: under op(200,xf,e1) `writeq(e1(1.5))` printed `1.5e1`
